@@ -47,7 +47,7 @@ RULE = ('directed prefix (time -1 as first read = regression of the repaired cac
         'instances) over 1-4 parameters (Dynamic and Number), time-dependent generators with 3 names x 3 seeds x 3 '
         'distributions, TimeSampledFn over them (periods 1-6, every offset), counters and seeded streams. non-trivial = at least one oracle conclusion checked and one '
         'value read from a time-dependent generator; distinct = distinct canonical case')
-COVERAGE_TARGETS = ['explicit-time_fn', 'own-clock-read', 'setTimeType', 'fractional-time', 'time_type:Fraction', 'read:td', 'read:st', 'read:sm', 'force:sm', 'inspect:sm', 'read:const', 'read:raised:StopIteration', 'read:raised:KeyError',
+COVERAGE_TARGETS = ['plain-parameter', 'per-instance-parameters', 'object-valued-parameter', 'explicit-time_fn', 'own-clock-read', 'setTimeType', 'fractional-time', 'time_type:Fraction', 'read:td', 'read:st', 'read:sm', 'force:sm', 'inspect:sm', 'read:const', 'read:raised:StopIteration', 'read:raised:KeyError',
                     'force:raised:StopIteration',
                     'inspect:td', 'inspect:st', 'force:td', 'force:st', 'enter', 'exit', 'exit:raised:KeyError',
                     'exit:raised:IndexError', 'push', 'pop', 'pop:raised:IndexError', 'raise:raised:StopIteration',
@@ -193,7 +193,11 @@ class _Run:
             # samples a time-dependent distribution every `period`, shifted by `offset` (visits the sample
             # time inside `with time_fn`)
             cls = getattr(self.ng, _DIST.get(k[1][:1], 'UniformRandom'))
-            g = self.ng.TimeSampledFn(fn=cls(name=k[1], seed=k[2], time_dependent=True), period=k[3], offset=k[4])
+            try:
+                g = self.ng.TimeSampledFn(fn=cls(name=k[1], seed=k[2], time_dependent=True), period=k[3], offset=k[4])
+            except Exception:
+                # period <= 0, offset < 0 (Number bounds) or offset >= period: the constructor refuses
+                raise _Malformed()
         elif k[0] == 'td':
             cls = getattr(self.ng, _DIST.get(k[1][:1], 'UniformRandom'))
             # `tf`: the global Time object handed over explicitly (`time_fn=T`) instead of being looked up
@@ -247,6 +251,8 @@ class _Run:
             tag = f'{o}:{"c" if op["tg"] < 0 else op["tg"]}:{op["p"]}'
         elif o in ('push', 'pop'):
             tag = f'{o}:{op["i"]}'
+        elif o == 'assign':
+            tag = f'assign:{"c" if op["tg"] < 0 else op["tg"]}:{op["p"]}'
         try:
             # everything the statement needs is looked up first (a missing object is _Malformed)
             if o in ('read', 'inspect', 'force'):
@@ -298,6 +304,11 @@ class _Run:
         elif o == 'newInst':
             self.insts.append(v)
             self.inst_gens(v)        # registers the copies, in parameter order
+            if self.case.get('instparams'):
+                # per-instance Parameter objects come into being (copies of the class Parameters as they are
+                # now); values keep being looked up as before
+                for i in range(len(self.case['params'])):
+                    v.param[f'p{i}']
         self.ev(tag, {'ok': res}, touched, gens)
 
     def run(self):
@@ -313,8 +324,13 @@ class _Run:
                 del tf.in_context
             ns = {}
             for i, p in enumerate(case['params']):
-                P = param.Dynamic if p['ptype'] == 'dynamic' else param.Number
+                # 'plain': not a Dynamic parameter at all (holds plain numbers only): reads, inspections, forced
+                # values and push/pop must treat it like a Dynamic parameter holding a non-callable value
+                P = {'dynamic': param.Dynamic, 'number': param.Number, 'plain': param.Parameter}[p['ptype']]
                 ns[f'p{i}'] = P(default=self.make(p['default']))
+            if case.get('sub'):
+                # a further, object-valued parameter no statement touches (push/pop walk over every parameter)
+                ns['sub'] = param.Parameter(default=param.Parameterized(name='sub'))
             self.cls = type('A', (param.Parameterized,), ns)
             self.insts = []
             init = {'tag': 'init', 'res': {'ok': ['u']}, 'clock': self.clock(), 'caches': self.caches(),
@@ -394,8 +410,8 @@ def _p(ptype, default):
     return {'ptype': ptype, 'default': default}
 
 
-def _mk(params, ops, dynTD=True):
-    return {'dynTD': dynTD, 'params': params, 'ops': ops}
+def _mk(params, ops, dynTD=True, sub=False, instparams=False):
+    return {'dynTD': dynTD, 'params': params, 'ops': ops, 'sub': sub, 'instparams': instparams}
 
 
 def R(tg, p):
@@ -496,6 +512,21 @@ def _directed():
     yield _mk(etf, [NEW, R(0, 0), R(0, 1), R(-1, 0), R(0, 0)])          # at the time of the copy nothing differs
     yield _mk([_p('dynamic', _td())], [NEW, {'op': 'assign', 'tg': 0, 'p': 0, 'src': dict(_td(), tf=True)}, T(3), R(0, 0),
                                        R(-1, 0), T(6), R(0, 0), R(-1, 0)])   # assigned, not copied: follows the clock
+    # a parameter that is not Dynamic at all next to dynamic ones (read / inspect / force / push / pop), an
+    # object-valued parameter nobody touches, per-instance Parameter objects made before the class default changes
+    pl = [_p('plain', {'const': 7}), _p('dynamic', _td()), _p('number', _st(0))]
+    yield _mk(pl, [NEW, R(0, 0), I(0, 0), F(0, 0), I(-1, 0), R(-1, 0), {'op': 'assign', 'tg': 0, 'p': 0, 'src': {'const': 2}},
+                   I(0, 0), {'op': 'push', 'i': 0}, T(3), R(0, 1), R(0, 2), I(0, 0), {'op': 'pop', 'i': 0}, I(0, 1),
+                   I(0, 2), R(0, 0)], sub=True)
+    yield _mk([_p('dynamic', {'const': 4}), _p('dynamic', _st(0))],
+              [NEW, NEW, {'op': 'assign', 'tg': -1, 'p': 0, 'src': _st(2)}, T(1), R(0, 0), R(1, 0), I(0, 0),
+               {'op': 'push', 'i': 0}, T(7), R(0, 0), F(0, 0), {'op': 'pop', 'i': 0}, I(0, 0), T(1), R(0, 0),
+               {'op': 'assign', 'tg': -1, 'p': 1, 'src': _td('n', 0)}, R(0, 1), R(-1, 1), {'op': 'push', 'i': 1}, T(9),
+               R(1, 0), {'op': 'pop', 'i': 1}, I(1, 0)], sub=True, instparams=True)
+    # TimeSampledFn refuses offset >= period, period <= 0, offset < 0
+    for per, off in ((3, 3), (3, 4), (0, 0), (2, -1), (3, 2)):
+        yield _mk([_p('dynamic', _td())], [NEW, {'op': 'assign', 'tg': 0, 'p': 0, 'src': {'fresh': ['sm', 'g', 3, per, off]}},
+                                          T(4), R(0, 0)])
     # forward / backward / repeated, two instances, class-level
     yield _mk(two, [NEW, NEW] + [x for t in (0, 1, 2, 1, 0, 5, 0, -2, 3, -2, 2, 2 ** 32 + 1, 1)
                                  for x in (T(t), R(0, 0), R(1, 0), R(-1, 0), R(0, 1), R(0, 1))])
@@ -584,6 +615,9 @@ def _random_case(rng):
         return g
 
     params = [_p(rng.choice(['dynamic', 'number']), src(True)) for _ in range(nparams)]
+    for q in params:
+        if rng.random() < 0.12:
+            q['ptype'], q['default'] = 'plain', {'const': rng.randint(-3, 9)}
     st = {'ninst': 0, 'ngens': sum('fresh' in p['default'] for p in params), 'budget': rng.randint(3, 30)}
 
     def time():
@@ -669,7 +703,11 @@ def _random_case(rng):
                 else:
                     del ops[-1]['s']
             elif r < 0.96:
-                ops.append({'op': 'assign', 'tg': tgt(), 'p': rng.randrange(nparams), 'src': src(False, min(st['ngens'], 3))})
+                pi = rng.randrange(nparams)
+                sr = {'const': rng.randint(-3, 9)} if params[pi]['ptype'] == 'plain' else src(False, min(st['ngens'], 3))
+                if 'fresh' in sr and sr['fresh'][0] == 'sm' and rng.random() < 0.15:
+                    sr['fresh'][4] = sr['fresh'][3] + rng.choice([0, 1])        # refused by the constructor
+                ops.append({'op': 'assign', 'tg': tgt(), 'p': pi, 'src': sr})
                 if 'fresh' in ops[-1]['src']:
                     st['ngens'] += 1
             else:
@@ -681,7 +719,7 @@ def _random_case(rng):
     ops = block(0)
     if rng.random() < 0.2:
         ops.insert(0, TT(time(), 'frac'))        # the whole history on rational time
-    return _fix(_mk(params, ops, dynTD))
+    return _fix(_mk(params, ops, dynTD, sub=rng.random() < 0.5, instparams=rng.random() < 0.3))
 
 
 def _fix(case):
@@ -745,6 +783,12 @@ def tags(case, impl):
     t.append(f'len={min(n, 30) // 5 * 5}+')
     if isinstance(impl, dict) and 'events' in impl:
         import json as _json
+        if any(q['ptype'] == 'plain' for q in case['params']):
+            t.append('plain-parameter')
+        if case.get('instparams'):
+            t.append('per-instance-parameters')
+        if case.get('sub'):
+            t.append('object-valued-parameter')
         if '"tf": true' in _json.dumps(case):
             t.append('explicit-time_fn')
         times = set()
@@ -792,20 +836,22 @@ def shrink(case):
 
 
 def classify(case, impl, fail):
-    """one known finding: a generator constructed with an explicit `time_fn=` and deep-copied into an instance
-    follows a stopped copy of the clock.  Narrow: the oracle names an `own-clock` read, and in the observed trace
-    that very event is a read/force through a generator whose `time_fn` is not the global Time object, and the
-    case declares a generator with `tf`."""
+    """One known finding, recognised only on its own shape: explicit-time-fn-deepcopied-per-instance — the oracle
+    names an `own-clock` read, and in the observed trace that very event is a read/force through a generator whose
+    `time_fn` is not the global Time object, in a case that declares a generator with `tf`.
+    (The stale inspect_value / force_new_dynamic_value answer of an instance with a per-instance Parameter copy is
+    repaired in /repo, 4c6307d; corpus/C19/inspect-stale-instance-parameter.json is its regression case.)"""
     import json
     import re
-    if fail.get('kind') != 'counterexample' or not isinstance(impl, dict) or 'events' not in impl:
+    if not isinstance(impl, dict) or 'events' not in impl:
         return None
-    m = re.match(r'own-clock: event (\d+) \((read|force):', str(fail.get('why')))
-    if not m or '"tf": true' not in json.dumps(case):
-        return None
-    i = int(m.group(1))
-    if i < len(impl['events']):
-        e = impl['events'][i]
-        if e['touched'] and len(e['touched']) > 2 and e['touched'][2] is True and e['touched'][1][0] == 'td':
-            return 'explicit-time-fn-deepcopied-per-instance'
+    why = str(fail.get('why'))
+    if fail.get('kind') == 'counterexample':
+        m = re.match(r'own-clock: event (\d+) \((read|force):', why)
+        if m and '"tf": true' in json.dumps(case):
+            i = int(m.group(1))
+            if i < len(impl['events']):
+                e = impl['events'][i]
+                if e['touched'] and len(e['touched']) > 2 and e['touched'][2] is True and e['touched'][1][0] == 'td':
+                    return 'explicit-time-fn-deepcopied-per-instance'
     return None
